@@ -22,6 +22,7 @@ import (
 	"path/filepath"
 	"regexp"
 	"runtime"
+	"runtime/debug"
 	"sort"
 	"strings"
 	"sync"
@@ -772,6 +773,8 @@ func c1Corpus(repo string) []c1prog {
 // ---- main ----------------------------------------------------------------------------------
 
 func runC01(c *Cfg) {
+	// a runaway recursion of the evaluator dies quickly instead of eating 1 GB of stack
+	debug.SetMaxStack(256 << 20)
 	if c.Replay != "" {
 		c1Replay(c)
 		return
@@ -804,6 +807,9 @@ func runC01(c *Cfg) {
 			src = g.Program()
 			if keepErr {
 				break
+			}
+			if dbg := os.Getenv("C01_DEBUG_LAST"); dbg != "" {
+				os.WriteFile(dbg, []byte(src), 0o666)
 			}
 			if res := c1Eval([]string{src}); res.info != nil && res.info.nErr == 0 {
 				break
@@ -869,6 +875,18 @@ func c1Replay(c *Cfg) {
 	b, err := os.ReadFile(name)
 	if err != nil {
 		fmt.Println(err)
+		return
+	}
+	if strings.HasPrefix(mode, "edit") {
+		// edit<N>:FILE prints the N-th simplifying edit of the program (for external
+		// minimisation loops, e.g. of crashing programs)
+		var n int
+		fmt.Sscanf(mode, "edit%d", &n)
+		t, ok := c1edit(string(b), n)
+		if !ok {
+			os.Exit(3)
+		}
+		fmt.Print(t)
 		return
 	}
 	switch mode {
